@@ -449,7 +449,9 @@ theorem reported_only_after_quiet_postsolve (cfg : Cfg) (n : Nat) (links : Links
   run_all_quiet cfg n _ (by simp [init])
 
 open Wntr.TankRun in
-/-- hence `postsolve_fixpoint` / last-writer-wins apply to EVERY reported step: for every control triggered on the reported
+/-- hence `postsolve_fixpoint` / last-writer-wins apply to EVERY reported step — for ANY presolve behaviour, in particular with
+RULES (tank-level premises evaluated on the rule grid, `Controls.presolveRules` / `TankRun.ruleAt`): the proof never looks inside
+the presolve pass, rules only decide which link state and time the solve starts from: for every control triggered on the reported
 solution, its target attribute holds its value (or that of a triggered control of priority ≥ on the same target commanding
 otherwise), and what is reported for every tracked target is what the solve of that step used. -/
 theorem reported_consistent_along_run (cfg : Cfg) (n : Nat) (links : Links) (heads lasts : List Rat) :
